@@ -100,7 +100,7 @@ Qed.
 Lemma jt_collect_no_conds : forall p, no_conds p = true -> snd (fst (jt_collect p)) = [].
 Proof.
   induction p; cbn [no_conds jt_collect]; intros H; try reflexivity.
-  - auto.
+  - destruct (base_var p); reflexivity.
   - destruct conds; [|discriminate]. cbn [andb] in H. apply andb_true_iff in H as [H1 H2].
     specialize (IHp1 H1). specialize (IHp2 H2).
     destruct (jt_collect p1) as [[rl cl] okl], (jt_collect p2) as [[rr cr] okr]. cbn [fst snd] in *.
@@ -124,8 +124,8 @@ Proof.
   intros p H. unfold reorder_fires, jt_extract.
   pose proof (jt_collect_no_conds p H) as E.
   destruct (jt_collect p) as [[rels infos] ok]. cbn [fst snd] in E. subst.
-  destruct (ok && (2 <=? Z.of_nat (List.length rels))) eqn:C; [|reflexivity].
-  apply andb_true_iff in C as [_ C]. apply Z.leb_le in C.
+  match goal with |- context [if ?c then _ else _] => destruct c eqn:C end; [|reflexivity].
+  apply andb_true_iff in C as [C _]. apply andb_true_iff in C as [_ C]. apply Z.leb_le in C.
   cbn [jg_edges flat_map]. apply connected_nil. lia.
 Qed.
 
@@ -157,8 +157,8 @@ Lemma no_conds_try_push : forall e op, no_conds op = true -> no_conds (try_push 
 Proof.
   intros e op; induction op; cbn [try_push no_conds]; intros H; try exact H.
   - destruct (uses_any _ _); cbn [no_conds]; auto.
-  - destruct (disjointb _ _); cbn [no_conds]; auto.
-  - auto.
+  - destruct (all_passed _ _); cbn [no_conds]; auto.
+  - destruct (all_passed _ _); cbn [no_conds]; auto.
   - apply andb_true_iff in H as [H H2]. apply andb_true_iff in H as [H0 H1].
     destruct (_ && _); cbn [no_conds]; [rewrite H0, IHop1, H2 by assumption; reflexivity|].
     destruct (_ && _); cbn [no_conds]; [rewrite H0, H1, IHop2 by assumption; reflexivity|].
@@ -308,43 +308,43 @@ Lemma length_neq_not_perm : forall (l1 l2 : list row), List.length l1 <> List.le
 Proof. intros l1 l2 H P. apply H, Permutation_length, P. Qed.
 
 Theorem push_scope_refuted_l : exists G p,
-  uniform p = true /\ no_conds p = true /\ k_push p = true /\ ~ Permutation (sem G (pfd p)) (sem G p).
+  uniform p = true /\ no_conds p = true /\ k_push_pre p = true /\ ~ Permutation (sem G (pfd_pre p)) (sem G p).
 Proof.
   exists gW, pW1. repeat split; try (vm_compute; reflexivity).
   apply length_neq_not_perm. vm_compute. discriminate.
 Qed.
 
 Theorem push_left_join_refuted_l : exists G p,
-  uniform p = true /\ k_push p = true /\ ~ Permutation (sem G (pfd p)) (sem G p).
+  uniform p = true /\ k_push_pre p = true /\ ~ Permutation (sem G (pfd_pre p)) (sem G p).
 Proof.
   exists gW, pW2. repeat split; try (vm_compute; reflexivity).
   apply length_neq_not_perm. vm_compute. discriminate.
 Qed.
 
 Theorem push_return_alias_refuted_l : exists G p,
-  uniform p = true /\ k_push p = true /\ ~ Permutation (sem G (pfd p)) (sem G p).
+  uniform p = true /\ k_push_pre p = true /\ ~ Permutation (sem G (pfd_pre p)) (sem G p).
 Proof.
   exists gW, pW3. repeat split; try (vm_compute; reflexivity).
   apply length_neq_not_perm. vm_compute. discriminate.
 Qed.
 
 Theorem reorder_drops_filter_refuted_l : exists G b a,
-  uniform b = true /\ reorder_chk b a = true /\ k_reorder b a = true /\
+  uniform b = true /\ reorder_chk_pre b a = true /\ k_reorder b a = true /\
   List.length (sem G b) <> List.length (sem G a).
 Proof.
   exists gW, bW4, aW4. repeat split; try (vm_compute; reflexivity). vm_compute. discriminate.
 Qed.
 
 Theorem reorder_swaps_condition_refuted_l : exists G b a,
-  uniform b = true /\ reorder_chk b a = true /\ k_reorder b a = true /\
+  uniform b = true /\ reorder_chk_pre b a = true /\ k_reorder b a = true /\
   List.length (sem G b) <> List.length (sem G a).
 Proof.
   exists gW, bW5, aW5. repeat split; try (vm_compute; reflexivity). vm_compute. discriminate.
 Qed.
 
 Theorem engine_stack_pre_refuted_l : exists G p,
-  uniform p = true /\ k_push p = false /\ no_stack p = true /\ no_stack (pfd p) = false /\
-  sem G (pfd p) = sem G p /\ List.length (sem_e_pre G (pfd p)) <> List.length (sem_e_pre G p).
+  uniform p = true /\ k_push_pre p = false /\ no_stack p = true /\ no_stack (pfd_pre p) = false /\
+  sem G (pfd_pre p) = sem G p /\ List.length (sem_e_pre G (pfd_pre p)) <> List.length (sem_e_pre G p).
 Proof.
   exists gW, pW6. repeat split; try (vm_compute; reflexivity). vm_compute. discriminate.
 Qed.
@@ -371,40 +371,40 @@ Proof.
   unfold k_push in K. now apply negb_false_iff in K.
 Qed.
 
-(** the proposed repair of C09-K1 (Opt.v [pfd_fix]): sound outside what is left of the class, and
+(** the proposed repair of C09-K1 (Opt.v [pfd]): sound outside what is left of the class, and
     the three witnesses of the class are outside it and keep their rows *)
-Theorem pfd_fix_sound_k : forall G p,
-  uniform p = true -> k_push_fix p = false -> sem G (pfd_fix p) = sem G p.
+Theorem pfd_sound_k : forall G p,
+  uniform p = true -> k_push p = false -> sem G (pfd p) = sem G p.
 Proof.
-  intros G p U K. apply pfd_fix_sound; [assumption|]. unfold k_push_fix in K. now apply negb_false_iff in K.
+  intros G p U K. apply pfd_sound; [assumption|]. unfold k_push in K. now apply negb_false_iff in K.
 Qed.
 
-Theorem pfd_fix_witnesses : forall p, In p [pW1; pW2; pW3] ->
-  k_push p = true /\ k_push_fix p = false /\ sem gW (pfd_fix p) = sem gW p.
+Theorem pfd_witnesses : forall p, In p [pW1; pW2; pW3] ->
+  k_push_pre p = true /\ k_push p = false /\ sem gW (pfd p) = sem gW p.
 Proof.
   intros p H. cbn [In] in H. destruct H as [<-|[<-|[<-|[]]]]; repeat split; vm_compute; reflexivity.
 Qed.
 
-Theorem pfd_fix_witness_frontend : exists G p,
-  uniform p = true /\ no_conds p = true /\ k_push p = true /\ ~ Permutation (sem G (pfd p)) (sem G p) /\
-  k_push_fix p = false /\ sem G (pfd_fix p) = sem G p.
+Theorem pfd_witness_frontend : exists G p,
+  uniform p = true /\ no_conds p = true /\ k_push_pre p = true /\ ~ Permutation (sem G (pfd_pre p)) (sem G p) /\
+  k_push p = false /\ sem G (pfd p) = sem G p.
 Proof.
   exists gW, pW1. repeat split; try (vm_compute; reflexivity).
   apply length_neq_not_perm. vm_compute. discriminate.
 Qed.
 
-(** the proposed repair of C09-K2 (Opt.v [reorder_chk_fix]): the two answer-changing outputs are no
+(** the proposed repair of C09-K2 (Opt.v [reorder_chk]): the two answer-changing outputs are no
     longer possible results, the filter stays above the reordered tree, and a swapped tree carries the
     swapped condition, which the planner uses *)
 Definition aW5_fix : plan :=
   PJoin JInner [(EVar "y", EVar "x")] (PScan "y" (Some "A"%string)) (PScan "x" (Some "A"%string)).
 
 Theorem reorder_fix_witnesses :
-  reorder_chk bW4 aW4 = true /\ reorder_chk_fix bW4 aW4 = false /\
-  reorder_chk_fix bW4 (PFilter (EBin OGt (EProp "x" "v") (ELit (VInt 0))) aW5_fix) = true /\
+  reorder_chk_pre bW4 aW4 = true /\ reorder_chk bW4 aW4 = false /\
+  reorder_chk bW4 (PFilter (EBin OGt (EProp "x" "v") (ELit (VInt 0))) aW5_fix) = true /\
   k_reorder bW4 (PFilter (EBin OGt (EProp "x" "v") (ELit (VInt 0))) aW5_fix) = false /\
-  reorder_chk bW5 aW5 = true /\ reorder_chk_fix bW5 aW5 = false /\
-  reorder_chk_fix bW5 aW5_fix = true /\ k_reorder bW5 aW5_fix = false.
+  reorder_chk_pre bW5 aW5 = true /\ reorder_chk bW5 aW5 = false /\
+  reorder_chk bW5 aW5_fix = true /\ k_reorder bW5 aW5_fix = false.
 Proof. vm_compute. repeat split. Qed.
 
 (** equal normal forms as terms: equal lists of rows *)
